@@ -165,6 +165,16 @@ def ordEngine (f : String) (args : List String) : String :=
     match d.toInt?, k.toInt?, n.toNat?, Ord.parseInts xs with
     | some d, some k, some n, some xs => if d ≥ 1 then Ord.heapRun d k (dec == "1") n xs else "bad-op"
     | _, _, _, _ => "bad-op"
+  | "nlargest", [d, dec, n, xs] =>
+    -- `Heap.nLargest` itself (push all, pop n) with the comparator by key x / d
+    match d.toInt?, n.toNat?, Ord.parseInts xs with
+    | some d, some n, some xs =>
+      if d ≥ 1 then
+        let le : Sort.Cmp String Int := fun _ a b =>
+          .ok (if dec == "1" then decide (a / d ≤ b / d) else decide (a / d ≥ b / d))
+        Ord.showLRes (Sort.Heap.nLargest le n xs)
+      else "bad-op"
+    | _, _, _ => "bad-op"
   | "select", [d, target, fa, fb, xs] =>
     -- quickselect by key x / d; the comparator errors on the pair (fa, fb)
     match d.toInt?, target.toNat?, fa.toInt?, fb.toInt?, Ord.parseInts xs with
